@@ -30,7 +30,11 @@ RULE = ("catalogue (about 40 malformed strings: stray/unbalanced brackets, empty
         "NewUpstream (created or refused); and about 20 plain udp / no-scheme addresses (url with/without port x dial_addr with/without "
         "port, other host / other port / same port) run against loopback servers that answer every UDP query truncated (TC=1) with TCP "
         "listeners on every candidate address x port: the TCP retry must arrive exactly where the UDP datagram went, the configured "
-        "address, and be answered. A case is non-trivial when an IPv6 form, a dial_addr or an omitted port "
+        "address, and be answered; and about 18 sequences of 2..4 upstreams (tls, tls+pipeline, https, h3, quic, doq mixed, different "
+        "hosts, names and IP literals) created one after another from ONE shared Opt.TLSConfig (ServerName empty, or preset as control) and "
+        "then used in order: per upstream the SNI seen by a harness TLS server behind the proxy resp. a harness QUIC listener given as "
+        "dial_addr, whether the certificate issued for its own URL host is accepted, and afterwards ServerName and len(NextProtos) of the "
+        "caller's config. A case is non-trivial when an IPv6 form, a dial_addr or an omitted port "
         "is involved; distinct = distinct Gallina literal")
 ASSUMPTIONS = [
     "net/url.Parse decides Scheme and Host as transcribed in Model.Addr.url_parse for strings over letters, digits and . - _ + : [ ] / "
@@ -40,7 +44,8 @@ ASSUMPTIONS = [
     "with Opt.Bootstrap the bootstrap package is trusted to return <first A/AAAA answer>:<port it was given> (observed end to end on the bootstrap cases)",
     "the dialled address is net.JoinHostPort(host, port) of the pair the model computes: observed through SOCKS5 / loopback sockets "
     "on the few dozen network cases, not proved",
-    "for quic/doq/h3 only the destination of the first datagram is observed, not the TLS name",
+    "for quic/doq/h3 the destination of the first datagram is observed, and the SNI of the ClientHello in the sequence cases "
+    "(hostnames); certificate verification against an IP literal is not observed for them",
 ]
 TRUSTED_BASE = [
     "hand-written model coq/Model/Addr.v tied to pkg/upstream/utils.go and pkg/upstream/upstream.go (NewUpstream) by differential "
@@ -53,7 +58,10 @@ LEVEL_TEXT = ("Theorems in coq/Properties/C18.v, for ALL strings of the grammar 
               "else the scheme default, with the URL host as TLS name; refusals (non-IP where an IP is needed, port text that is "
               "not a 16 bit decimal, unknown scheme, bare IPv6 with a non-decimal last group) happen at creation; with Opt.Bootstrap the "
               "host handed to the resolver and the port are the same ones (c18_bootstrap_keeps_port); both dial sites of the plain udp "
-              "upstream (UDP socket, TCP retry after a truncated reply) use that one target (c18_udp_both_dial_sites); and for ALL "
+              "upstream (UDP socket, TCP retry after a truncated reply) use that one target (c18_udp_both_dial_sites); a sequence of calls gives "
+              "the upstreams of the single calls, so each TLS name is the own URL host whatever was created before "
+              "(c18_calls_independent, c18_tls_name_in_any_sequence — trivial over the stateless model, checked against the code on "
+              "sequences sharing one tls.Config); and for ALL "
               "strings whatsoever an accepted (host, port) is literally what the string says (reject_or_exact). The model is run "
               "inside Coq on every case the Go driver observed on the real helpers, on NewUpstream and on the network.")
 LEVEL_NOTE = ("Trusted: Coq kernel + vm_compute; hand-written model tied to the code by the differential run; transcriptions of "
